@@ -10,7 +10,16 @@ positive values, every RoutingOption on/off, polyline and orthogonal, 1-3 connec
 bit-identical repetition (also after a routing call with other arguments), exact translation of route(), 1e-9 translation of the nudged
 displayRoute(), and under the 8 symmetries / permuted insertion the route COST recomputed from the raw route() exactly as cost()
 (makepath.cpp) accumulates it.  (a2) removeoverlaps repeated after unrelated calls of the same API (thirdPass false, other rectangles,
-borders set and restored by the caller) with no reset in between."""
+borders set and restored by the caller) with no reset in between.
+(c3) libavoid under the DEFAULT configuration (no setRoutingParameter / setRoutingOption call, so that nothing hides a value the constructor
+left uninitialised) on scenes with multi-pin classes of different pin costs / directions, crossing connectors, clusters: repeated after an
+unrelated Router with EXTREME parameters was used and deleted, after malloc / fill / free of blocks of sizeof(Router) and nearby sizes, and with
+every block handed out by operator new pre-filled (harness command F); plus every scene alone in one fresh process per fill mode (identical
+allocation sequence => identical address order, only the prior contents of the heap blocks differ).  (d) libcola: ConstrainedFDLayout /
+ConstrainedMajorizationLayout on small graphs with coincident / nearly coincident / distinct start positions, compound constraints off / on,
+repeated with unrelated layouts of OTHER graphs with coincident nodes, a layout with extreme settings and heap fills in between (1e-9; measured:
+bit-identical), translated start and permuted node / edge order (judged on the class where HEAD is measurably stable).  (e) the same for
+vpsc::IncSolver and removeoverlaps (same-type object with extreme settings in between, heap fills, fresh-process fill invariance)."""
 import os, json, math, collections
 from fractions import Fraction as F
 from vlib import common as C
@@ -1011,6 +1020,227 @@ def part_c2(res, rng, exe, n_inst, stats, hist):
     return dt
 
 
+# ------------------------------------------------------------------------------------------ (c3) libavoid, DEFAULT configuration
+EXTREME_PAR = [500, 100, 10000, 100000, 1000, 1000, 8, 16, 1000]
+SIDE_PINS = [(0.5, 0, 1), (0.25, 0, 1), (0.75, 0, 1), (0.5, 1, 2), (0.25, 1, 2), (0.75, 1, 2), (0, 0.5, 4), (0, 0.25, 4), (0, 0.75, 4),
+             (1, 0.5, 8), (1, 0.25, 8), (1, 0.75, 8)]           # (xOffset, yOffset, ConnDirFlags): y = 0 is the top side (ConnDirUp = smaller y)
+
+
+def scene3(rng, mode=1):
+    """scenes for the default-configuration runs: every routing parameter has something to act on - pin-class ends with 2..4 candidate pins of
+    different directions AND connection costs (portDirectionPenalty decides between them), 2..3 connectors that cross / share paths
+    (crossingPenalty, fixedSharedPathPenalty, nudging distance), routes round shape corners (shapeBufferDistance, segmentPenalty, anglePenalty),
+    ends in mixed quadrants (reverseDirectionPenalty), a cluster round a shape (clusterCrossingPenalty)"""
+    ns = rng.range(1, 5)
+    shapes, tries = [], 0
+    while len(shapes) < ns and tries < 200:
+        tries += 1
+        x, y, w, h = rng.range(0, 60), rng.range(0, 60), rng.range(4, 20), rng.range(4, 20)
+        q = (x, y, x + w, y + h)
+        if all(q[2] + 5 <= t[0] or t[2] + 5 <= q[0] or q[3] + 5 <= t[1] or t[3] + 5 <= q[1] for t in shapes):
+            shapes.append(q)
+    pins = []
+    for i in range(len(shapes)):
+        if rng.chance(2, 3) or i == 0:
+            k = rng.range(2, 4)
+            ps = rng.shuffle(SIDE_PINS)[:k]
+            pins.append([(F(a), F(b), d, F(rng.choice([0, 0, 5, 12.5, 30, 1]))) for a, b, d in ps])
+        else:
+            pins.append([])
+
+    def free_pt():
+        while True:
+            q = (rng.range(-10, 90), rng.range(-10, 90))
+            if all(q[0] < t[0] - 1 or q[0] > t[2] + 1 or q[1] < t[1] - 1 or q[1] > t[3] + 1 for t in shapes):
+                return q
+
+    def end(avoid=None, want_pin=False):
+        cands = [i for i, k in enumerate(pins) if k and i != avoid]
+        if cands and (want_pin or rng.chance(1, 2)):
+            return ('S', rng.choice(cands))
+        q = free_pt()
+        return ('P', q[0], q[1], 15 if rng.chance(3, 4) else rng.choice([1, 2, 4, 8, 3, 12, 5, 10]))
+    conns = []
+    for j in range(rng.range(1, 3)):
+        a = end(want_pin=(j == 0))
+        b = end(a[1] if a[0] == 'S' else None)
+        if a[0] == 'P' and b[0] == 'P' and a[1:3] == b[1:3]:
+            continue
+        conns.append((a, b) if rng.chance(1, 2) else (b, a))
+    clusters = []
+    if mode == 1 and rng.chance(1, 3):     # (polyline cluster corners must be shape vertices: asserted precondition, makepath.cpp:385)
+        t = shapes[rng.below(len(shapes))]
+        clusters.append([(t[0] - 2, t[1] - 2), (t[2] + 2, t[1] - 2), (t[2] + 2, t[3] + 2), (t[0] - 2, t[3] + 2)])
+    return shapes, pins, conns, clusters
+
+
+def cmd_D(mode, shapes, pins, conns, clusters):
+    def E(e):
+        return 'S %d' % e[1] if e[0] == 'S' else 'P %s %s %d' % (fs(F(e[1])), fs(F(e[2])), e[3])
+    return 'D %d %d %s %d %s %d %s' % (
+        mode, len(shapes), ' '.join('%s %s %s %s %d %s' % (fs(F(q[0])), fs(F(q[1])), fs(F(q[2])), fs(F(q[3])), len(pp),
+                                                          ' '.join('%s %s %d %s' % (fs(a), fs(b), d, fs(cst)) for a, b, d, cst in pp))
+                                    for q, pp in zip(shapes, pins)),
+        len(conns), ' '.join('%s %s' % (E(a), E(b)) for a, b in conns),
+        len(clusters), ' '.join('%d %s' % (len(cl), ' '.join('%s %s' % (fs(F(x)), fs(F(y))) for x, y in cl)) for cl in clusters))
+
+
+def strip_nz(line):
+    f = line.split()
+    return ' '.join(x for x in f if not x.startswith('nz='))
+
+
+FIXED_C3 = [  # the shape of the seeded demo: right pin cost 5, bottom pin cost 0, free end below right
+    (1, [(0, 0, 40, 40)], [[(F(1), F(1, 2), 8, F(5)), (F(1, 2), F(1), 2, F(0))]], [(('S', 0), ('P', 140, 100, 15))], []),
+    (0, [(0, 0, 40, 40)], [[(F(1), F(1, 2), 8, F(5)), (F(1, 2), F(1), 2, F(0))]], [(('S', 0), ('P', 140, 100, 15))], [])]
+
+
+FILLS = ['F 1', 'F 5', 'F 6 %d', 'F 2']
+
+
+def fill_invariance(exe, cmds, seed, fills=None, timeout=900):
+    """the same command stream in one FRESH process per fill mode of the harness' operator new (F 1: zero, F 5: the double 100.0, F 6: plausible
+    pseudo-random doubles, F 2: 0xA5): the processes perform the identical sequence of allocations, so the relative order of heap addresses
+    (pointer-valued tie-breaks) is the same in all of them and the ONLY difference is what every fresh heap block held before the library
+    wrote to it.  Returns (list of output-line lists, seconds)."""
+    outs, tt = [], 0.0
+    for f in (fills or FILLS):
+        rc, out, err, dt = L.run_lines([exe], [f % seed if '%d' in f else f] + list(cmds), timeout=timeout)
+        outs.append([strip_nz(x) for x in out[1:]] if rc == 0 else None)
+        tt += dt
+    return outs, tt
+
+
+def multi_pin_end(pins, conns, j):
+    return any(e[0] == 'S' and len(pins[e[1]]) >= 2 for e in conns[j])
+
+
+def part_c3(res, rng, exe, n_inst, stats):
+    """libavoid with the DEFAULT configuration (the scene makes no setRoutingParameter / setRoutingOption call, so nothing hides a value the
+    constructor left uninitialised), routed six times in one process: first; after an unrelated Router with EXTREME parameter values and every
+    option switched on was configured, used and deleted; after malloc / fill / free of blocks of sizeof(Router) and nearby sizes; and with every
+    block handed out by operator new pre-filled with plausible doubles / 100.0 / a byte pattern (deterministic stand-in for recycled heap memory).
+    Bit-identical route() and displayRoute() required."""
+    cp = os.path.join(C.VERIF, 'corpus', 'c20_pin_addr.txt')
+    if os.path.exists(cp):
+        # reproducer of the known finding pin_edge_addr_tiebreak (address-dependent: recorded as evidence, judged by the classifier below)
+        block = [l for l in open(cp).read().split('\n') if l]
+        rc, out, err, _ = L.run_lines([exe], block, timeout=120)
+        ds = [strip_nz(x) for x, c_ in zip(out, block) if c_.startswith('D')]
+        stats['c3_corpus_pin_addr_distinct_results'] = len(set(ds))
+    cmds, meta = [], []
+    for k in range(n_inst + len(FIXED_C3)):
+        if k < len(FIXED_C3):
+            mode, shapes, pins, conns, clusters = FIXED_C3[k]
+        else:
+            mode = rng.below(2)
+            shapes, pins, conns, clusters = scene3(rng, mode)
+        base = cmd_D(mode, shapes, pins, conns, clusters)
+        osh, opins, oconns = scene2(rng, 8)
+        extreme = cmd_C(rng.below(2), [F(v) for v in EXTREME_PAR], 127, osh, opins, oconns)
+        block = [base, extreme, base, 'M %d %d' % (rng.choice([0, 1, 2, 3, 3, 4, 5]), 1 + rng.next() % 10 ** 9), base,
+                 'F 6 %d' % (1 + rng.next() % 10 ** 9), base, 'F 5', base, 'F %d' % rng.choice([2, 3, 4]), base, 'F 0']
+        meta.append((mode, shapes, pins, conns, clusters, len(cmds), len(block)))
+        cmds += block
+    rc, out, err, dt = L.run_lines([exe], cmds, timeout=1500)
+    if rc != 0 or len(out) != len(cmds):
+        res.violation({'what': 'harness c20_replay crashed in the default-configuration routing run', 'rc': rc, 'stderr': err[-1500:],
+                       'command': cmds[len(out)] if len(out) < len(cmds) else None})
+        return dt
+    REP = (0, 2, 4, 6, 8, 10)
+    HOW = ['', 'an unrelated Router configured with extreme parameter values (all options on) was used and deleted',
+           'unrelated malloc / fill / free of blocks of sizeof(Router) and nearby sizes',
+           'every fresh heap block pre-filled with plausible doubles (harness command F 6: stand-in for recycled heap memory)',
+           'every fresh heap block pre-filled with the double 100.0 (harness command F 5)', 'every fresh heap block pre-filled with a byte pattern']
+    rp = 'build/bin/c20_replay-exc-*'
+    differing = []
+    for (mode, shapes, pins, conns, clusters, pos, blen) in meta:
+        o, c = out[pos:pos + blen], cmds[pos:pos + blen]
+        stats['c3_scenes'] += 1
+        stats['c3_orthogonal'] += mode
+        stats['c3_pin_class_ends'] += sum(1 for cn in conns for e in cn if e[0] == 'S')
+        stats['c3_pin_class_ends_with_distinct_costs'] += sum(1 for cn in conns for e in cn if e[0] == 'S' and len(set(q[3] for q in pins[e[1]])) > 1)
+        stats['c3_with_cluster'] += bool(clusters)
+        stats['c3_multi_connector'] += len(conns) >= 2
+        runs = [strip_nz(o[i]) for i in REP]
+        # priming verified at run time: how much of the Router's storage was non-zero before construction in the natural-heap runs
+        for i in (2, 4):
+            tok = [x for x in o[i].split() if x.startswith('nz=')]
+            if tok and int(tok[0][3:].split('/')[0]) > 0:
+                stats['c3_router_storage_recycled_nonzero'] += 1
+        if runs[0].startswith('DX'):
+            stats['c3_threw'] += 1
+        w = next((i for i in range(1, len(runs)) if runs[i] != runs[0]), None)
+        if w is None:
+            stats['c3_identical'] += 1
+            if len(SAMPLES) < 12 and stats['c3_scenes'] <= 3:
+                SAMPLES.append({'call': 'libavoid default configuration six times (extreme Router / malloc fill / operator-new fill in between)',
+                                'scene': cmd_D(mode, shapes, pins, conns, clusters), 'result': runs[0][:300]})
+            continue
+        stats['c3_differ_in_process'] += 1
+        differing.append((mode, shapes, pins, conns, clusters, o, c, runs, w))
+
+    def describe_D(mode, shapes, pins, conns, clusters):
+        return {'routing': 'orthogonal' if mode else 'polyline', 'configuration': 'default (no setRoutingParameter / setRoutingOption call)',
+                'shapes_x0_y0_x1_y1': shapes,
+                'pins_per_shape (xOffset, yOffset, ConnDirFlags, cost), class 1': [[[float(a_), float(b_), d, float(cst)] for a_, b_, d, cst in pp] for pp in pins],
+                'connectors (P x y ConnDirFlags | S shape)': [[list(x), list(y)] for x, y in conns], 'clusters': clusters}
+
+    def routes_json(line):
+        r = parse_C('C' + line[1:]) if not line.startswith('DX') else ('X', line)
+        return r[1] if r[0] == 'X' else [[[[float(x), float(y)] for x, y in rt] for rt in pair] for pair in r]
+
+    # (ii) every scene alone, in one fresh process per fill mode: identical allocation sequence, different prior contents of every heap block
+    scenes = [cmd_D(m[0], m[1], m[2], m[3], m[4]) for m in meta]
+    fseed = 1 + rng.next() % 10 ** 9
+    fouts, dt2 = fill_invariance(exe, scenes, fseed)
+    dt += dt2
+    content_dependent = set()
+    reported = 0
+    if any(x is None or len(x) != len(scenes) for x in fouts):
+        res.violation({'what': 'harness c20_replay crashed in the fill-invariance run of the default-configuration scenes',
+                       'fills': [f for f, x in zip(FILLS, fouts) if x is None or len(x) != len(scenes)]})
+    else:
+        for k, sc in enumerate(scenes):
+            stats['c3_fill_invariance_scenes'] += 1
+            w = next((i for i in range(1, len(fouts)) if fouts[i][k] != fouts[0][k]), None)
+            if w is None:
+                continue
+            content_dependent.add(sc)
+            stats['c3_fill_dependent'] += 1
+            if reported < 3:
+                reported += 1
+                fa, fb = FILLS[0], (FILLS[w] % fseed if '%d' in FILLS[w] else FILLS[w])
+                res.violation({'what': 'libavoid, default configuration: the routes depend on what the heap blocks handed out by operator new held BEFORE the '
+                                       'library wrote to them (two fresh processes, identical calls and identical allocation sequence; one with every fresh '
+                                       'block zeroed, one with it pre-filled: %s) - an uninitialised value is read, so in one process the result depends on '
+                                       'what was allocated and freed before' % fb,
+                               'input': describe_D(*meta[k][:5]), 'routes_raw_display_zero_filled': routes_json(fouts[0][k]),
+                               'routes_raw_display_pre_filled': routes_json(fouts[w][k]),
+                               'replay': 'printf "%s\\n%s\\n" | %s ; printf "%s\\n%s\\n" | %s' % (fa, sc, rp, fb, sc, rp)})
+    # (i) in-process differences: content-dependent ones are violations; the rest (identical under every fill in fresh processes) depend on the
+    # heap ADDRESSES only - classifier of the known finding pin_edge_addr_tiebreak evaluated on the failing case
+    for (mode, shapes, pins, conns, clusters, o, c, runs, w) in differing:
+        sc = cmd_D(mode, shapes, pins, conns, clusters)
+        a, b = routes_json(runs[0]), routes_json(runs[w])
+        dj = [j for j in range(len(conns)) if isinstance(a, list) and isinstance(b, list) and j < len(a) and j < len(b) and a[j] != b[j]]
+        fp = None
+        if sc not in content_dependent and mode == 1 and dj and any(multi_pin_end(pins, conns, j) for j in dj) and \
+                all(x is not None and len(x) == len(scenes) for x in fouts):
+            fp = 'pin_edge_addr_tiebreak'
+        stats['c3_known_' + fp if fp else 'c3_differ_unclassified'] += 1
+        if fp is None and reported >= 4:
+            continue
+        reported += fp is None
+        res.violation({'what': 'libavoid, default configuration (no setRoutingParameter / setRoutingOption call): the same scene routed again in one '
+                               'process gives a different result after: ' + HOW[w],
+                       'input': describe_D(mode, shapes, pins, conns, clusters), 'differing_connectors': dj,
+                       'depends_on_prior_heap_contents (fresh-process fill experiment)': sc in content_dependent,
+                       'routes_raw_display_first': a, 'routes_raw_display_again': b, 'first': o[0], 'again': o[REP[w]],
+                       'replay': 'printf "%s\\n" | %s' % ('\\n'.join(c[:REP[w] + 1]), rp)}, fingerprint=fp)
+    return dt
+
+
 # ------------------------------------------------------------------------------------------ (a2) removeoverlaps, same API interleaved
 def cmd_R2(inst, fixed, third, setb=0, xb=0, yb=0):
     s_ = inst.scale
@@ -1074,6 +1304,306 @@ def part_a2(res, rng, exe, n_inst, stats):
     return dt
 
 
+# ------------------------------------------------------------------------------------------ (d) libcola layouts repeated in one process
+LAYOUT_ALGOS = ['ConstrainedFDLayout.run()', 'ConstrainedFDLayout.makeFeasible()+run()', 'ConstrainedMajorizationLayout.run()']
+# tolerances of part (d), measured on /repo HEAD (DESIGN 9.8): repetition is bit-identical (the property asks 1e-9)
+D_REPEAT_TOL = 1e-9
+D_MAJ_TOL = 1e-8               # measured <= 1.9e-11 over 2200 plain majorization layouts (translated / permuted)
+D_FD_STRESS_TOL = 1e-2         # measured <= 8.9e-5 (translated, 5700 plain layouts) and <= 2.3e-4 (permuted, 3800)
+
+
+def layout_graph(rng, n):
+    kind = rng.choice(['cycle', 'path', 'star', 'tree', 'tree+', 'complete'])
+    es = []
+    if kind == 'cycle' and n >= 3:
+        es = [(i, (i + 1) % n) for i in range(n)]
+    elif kind == 'star':
+        es = [(0, i) for i in range(1, n)]
+    elif kind == 'complete' and n <= 5:
+        es = [(i, j) for i in range(n) for j in range(i + 1, n)]
+    elif kind in ('tree', 'tree+'):
+        es = [(rng.below(i), i) for i in range(1, n)]
+        if kind == 'tree+':
+            for _ in range(rng.range(1, 3)):
+                a, b = rng.below(n), rng.below(n)
+                if a != b and (a, b) not in es and (b, a) not in es:
+                    es.append((min(a, b), max(a, b)))
+    else:
+        es = [(i, i + 1) for i in range(n - 1)]
+    return [(a, b) if rng.chance(1, 2) else (b, a) for a, b in es]
+
+
+def layout_instance(rng, start=None, algo=None, cc=None):
+    """small connected graph, 10x10 (or mixed) boxes, start positions: all coincident / groups of coincident nodes / nearly coincident
+    (squared distance <= 1e-3, the threshold of computeForces) / distinct; compound constraints off or on"""
+    n = rng.range(2, 8)
+    es = layout_graph(rng, n)
+    start = start or rng.choice(['all', 'groups', 'near', 'distinct', 'distinct'])
+    cx, cy = F(rng.range(-40, 120)), F(rng.range(-40, 120))
+    if start == 'all':
+        pos = [(cx, cy)] * n
+    elif start == 'groups':
+        spots = [(cx + 30 * rng.range(-2, 2), cy + 30 * rng.range(-2, 2)) for _ in range(rng.range(1, 3))]
+        pos = [rng.choice(spots) for _ in range(n)]
+        pos[rng.below(n)] = pos[(rng.below(n))]
+    elif start == 'near':
+        pos = [(cx + F(rng.range(-1, 1), 64), cy + F(rng.range(-1, 1), 64)) for _ in range(n)]
+    else:
+        pos = []
+        while len(pos) < n:
+            q = (cx + F(rng.range(-400, 400), 4), cy + F(rng.range(-400, 400), 4))
+            if all(abs(q[0] - r[0]) + abs(q[1] - r[1]) >= 8 for r in pos):
+                pos.append(q)
+    sizes = [(F(10), F(10))] * n if rng.chance(2, 3) else [(F(rng.range(4, 30)), F(rng.range(4, 30))) for _ in range(n)]
+    ideal = F(rng.choice([25, 60, 60, 100, 37.5]))
+    ccs = []
+    if (rng.chance(1, 3) if cc is None else cc) and n >= 3:
+        order = [rng.shuffle(range(n)), rng.shuffle(range(n))]
+        for _ in range(rng.range(1, 3)):
+            d = rng.below(2)
+            if rng.chance(2, 3):
+                a, b = rng.below(n), rng.below(n)
+                if a == b:
+                    continue
+                if order[d].index(a) > order[d].index(b):
+                    a, b = b, a
+                ccs.append(('S', d, a, b, F(rng.choice([0, 15, 30, 42.5])), 1 if rng.chance(1, 5) else 0))
+            elif not any(c[0] == 'A' and c[1] == d for c in ccs):
+                ids = rng.shuffle(range(n))[:rng.range(2, 3)]
+                ccs.append(('A', d, [(i, F(rng.choice([0, 0, 5, -7.5]))) for i in ids], (cx, cy)[d] if rng.chance(1, 2) else F(0)))
+    algo = rng.choice([0, 0, 0, 1, 2]) if algo is None else algo
+    flags = 1 if rng.chance(1, 5) else 0
+    return {'algo': algo, 'flags': flags, 'pos': pos, 'sizes': sizes, 'edges': es, 'ideal': ideal, 'ccs': ccs, 'start': start}
+
+
+def cmd_L(I, tx=F(0), ty=F(0), perm=None, eorder=None):
+    n = len(I['pos'])
+    perm = perm or list(range(n))                 # new index of node i is perm[i]
+    inv = [0] * n
+    for i, q in enumerate(perm):
+        inv[q] = i
+    es = [I['edges'][k] for k in (eorder or range(len(I['edges'])))]
+    ccs = []
+    for c in I['ccs']:
+        if c[0] == 'S':
+            ccs.append('S %d %d %d %s %d' % (c[1], perm[c[2]], perm[c[3]], fs(c[4]), c[5]))
+        else:
+            # the constraint's own `position' (the weakly weighted desired place of the alignment line) is an absolute coordinate: it moves with the frame
+            ccs.append('A %d %s %d %s' % (c[1], fs(c[3] + (tx, ty)[c[1]]), len(c[2]), ' '.join('%d %s' % (perm[i], fs(o)) for i, o in c[2])))
+    return 'L %d %d %d %s %d %s %s %d %s' % (
+        I['algo'], I['flags'], n, ' '.join('%s %s %s %s' % (fs(I['pos'][inv[j]][0] + tx), fs(I['pos'][inv[j]][1] + ty), fs(I['sizes'][inv[j]][0]),
+                                                          fs(I['sizes'][inv[j]][1])) for j in range(n)),
+        len(es), ' '.join('%d %d' % (perm[a], perm[b]) for a, b in es), fs(I['ideal']), len(ccs), ' '.join(ccs))
+
+
+def parse_L(line):
+    if line.startswith('LX'):
+        return ('X', line[3:].strip())
+    a, b = line[2:].split('|')
+    v = [float.fromhex(x) for x in a.split()]
+    return [(v[i], v[i + 1]) for i in range(0, len(v), 2)], float.fromhex(b.strip())
+
+
+def has_coincident(I):
+    p = I['pos']
+    return any(float((p[i][0] - p[j][0]) ** 2 + (p[i][1] - p[j][1]) ** 2) <= 1e-3 for i in range(len(p)) for j in range(i))
+
+
+def layout_json(I):
+    return {'algorithm': LAYOUT_ALGOS[I['algo']], 'avoid_overlaps': bool(I['flags'] & 1), 'start_family': I['start'],
+            'centres': [[float(x), float(y)] for x, y in I['pos']], 'sizes': [[float(w), float(h)] for w, h in I['sizes']],
+            'edges': I['edges'], 'idealLength': float(I['ideal']),
+            'compound_constraints': [list(c[:2]) + ([float(c[3]), [[i, float(o)] for i, o in c[2]]] if c[0] == 'A' else [c[2], c[3], float(c[4]), c[5]]) for c in I['ccs']]}
+
+
+def maxdev(a, b, tx=0.0, ty=0.0):
+    return max([max(abs(q[0] - tx - p[0]), abs(q[1] - ty - p[1])) for p, q in zip(a, b)] or [0.0])
+
+
+def part_d(res, rng, exe, n_inst, stats):
+    """cola::ConstrainedFDLayout / ConstrainedMajorizationLayout: the same layout (fresh objects, equal inputs) three times in one process, with
+    unrelated allocation AND unrelated layouts of other graphs in between - crucially graphs that have coincident nodes themselves (they draw from
+    whatever pseudo-random source separates coincident nodes) and a layout with extreme settings (object of the same type, configured differently);
+    then in a translated frame and with permuted node / edge order."""
+    cmds, meta = [], []
+    fixed = [{'algo': 0, 'flags': 0, 'pos': [(F(100), F(100))] * 5, 'sizes': [(F(10), F(10))] * 5, 'edges': [(i, (i + 1) % 5) for i in range(5)],
+              'ideal': F(60), 'ccs': [], 'start': 'all'}]
+    for k in range(n_inst + len(fixed)):
+        I = fixed[k] if k < len(fixed) else layout_instance(rng)
+        other = layout_instance(rng, start=rng.choice(['all', 'groups', 'near']), algo=rng.choice([0, 0, 1]))
+        extreme = layout_instance(rng, start='all', algo=rng.choice([0, 2]), cc=True)
+        extreme['ideal'] = F(rng.choice([4096, 1, 0.125]))
+        extreme['flags'] = 1
+        n = len(I['pos'])
+        tx, ty = F(rng.range(-2 ** 15, 2 ** 15), 1024), F(rng.range(-2 ** 15, 2 ** 15), 1024)
+        perm = rng.shuffle(range(n))
+        eorder = rng.shuffle(range(len(I['edges'])))
+        base = cmd_L(I)
+        block = [base, 'J %d %d' % (rng.range(10, 400), rng.next() % 10 ** 9), cmd_L(other), base, cmd_L(extreme), base,
+                 'F 6 %d' % (1 + rng.next() % 10 ** 9), base, 'F %d' % rng.choice([2, 3, 4, 5]), base, 'F 0',
+                 cmd_L(I, tx=tx, ty=ty), cmd_L(I, perm=perm, eorder=eorder)]
+        meta.append((I, other, extreme, tx, ty, perm, eorder, len(cmds), len(block)))
+        cmds += block
+    rc, out, err, dt = L.run_lines([exe], cmds, timeout=1500)
+    if rc != 0 or len(out) != len(cmds):
+        res.violation({'what': 'harness c20_layout crashed / timed out in the layout replay run', 'rc': rc, 'stderr': err[-1500:],
+                       'command': cmds[len(out)] if len(out) < len(cmds) else None})
+        return dt
+    rp = 'build/bin/c20_layout-exc-*'
+    reported = 0
+    for (I, other, extreme, tx, ty, perm, eorder, pos, blen) in meta:
+        o, c = out[pos:pos + blen], cmds[pos:pos + blen]
+        stats['d_layouts'] += 1
+        co = has_coincident(I)
+        stats['d_coincident_start'] += co
+        stats['d_algo_%d' % I['algo']] += 1
+        stats['d_with_compound_constraints'] += bool(I['ccs'])
+        REP = (0, 3, 5, 7, 9)
+        r = [parse_L(o[i]) for i in REP]
+        if r[0][0] == 'X':
+            stats['d_threw'] += 1
+            if any(o[i] != o[0] for i in REP):
+                res.violation({'what': 'libcola layout: the call throws in one repetition and not (or differently) in another', 'input': layout_json(I),
+                               'outputs': [o[i] for i in REP], 'replay': 'printf "%s\\n" | %s' % ('\\n'.join(c[:11]), rp)})
+            continue
+        devs = [float('inf') if x[0] == 'X' else maxdev(r[0][0], x[0]) for x in r[1:]]
+        stats['d_repeat_bit_identical'] += all(o[i] == o[0] for i in REP)
+        if not (max(devs) <= D_REPEAT_TOL):                  # (written so that a NaN deviation fails)
+            w = next(i for i, d in enumerate(devs) if not d <= D_REPEAT_TOL) + 1
+            stats['d_repeat_differs'] += 1
+            if reported < 3:
+                reported += 1
+                res.violation({'what': 'libcola layout: the same layout (fresh objects, equal inputs) repeated in one process gives different positions '
+                                       '(> 1e-9) after %s' % ['unrelated allocation and an unrelated layout of another graph with coincident nodes',
+                                                              'an unrelated layout with extreme settings',
+                                                              'every fresh heap block pre-filled with plausible doubles (harness command F 6: stand-in for recycled heap memory)',
+                                                              'every fresh heap block pre-filled with a byte pattern (harness command %s)' % c[8]][w - 1],
+                               'input': layout_json(I), 'coincident_start_positions': co,
+                               'layout_in_between': layout_json(other if w == 1 else extreme) if w <= 2 else None,
+                               'positions_first': r[0][0], 'positions_again': r[w][0] if r[w][0] != 'X' else r[w][1], 'max_abs_difference': devs[w - 1],
+                               'replay': 'printf "%s\\n" | %s' % ('\\n'.join(c[:REP[w] + 1]), rp)})
+            continue
+        if len(SAMPLES) < 10 and co:
+            SAMPLES.append({'call': 'libcola layout thrice with other layouts in between / translated / permuted', 'input': layout_json(I),
+                            'positions': r[0][0], 'stress': r[0][1]})
+        # translated frame / permuted node and edge order.  Judged where HEAD is measurably stable (calibration, DESIGN 9.8): no coincident start
+        # positions, no compound constraints, no overlap avoidance ("plain"): majorization positions to D_MAJ_TOL, force-directed descent by the
+        # stress of the result (relative D_FD_STRESS_TOL; the descent stops on a relative stress change of 1e-4, so end positions of two frames
+        # can differ by up to 0.27 while their stress agrees to 9e-5).  Every other class is measured and recorded only.
+        plain = not co and not I['ccs'] and not I['flags']
+        cls = ('coincident' if co else 'plain' if plain else 'constrained') + ('_majorization' if I['algo'] == 2 else '_fd')
+        for idx, name in ((11, 'translate'), (12, 'permute')):
+            t = parse_L(o[idx])
+            if t[0] == 'X':
+                stats['d_%s_threw' % name] += 1
+                continue
+            got = [(x - float(tx), y - float(ty)) for x, y in t[0]] if idx == 11 else [t[0][perm[i]] for i in range(len(perm))]
+            dv = maxdev(r[0][0], got)
+            rel = abs(t[1] - r[0][1]) / max(1e-12, abs(r[0][1]))
+            stats['d_%s_exact' % name] += dv == 0.0
+            for key, v in (('d_%s_max_position_deviation_%s' % (name, cls), dv), ('d_%s_max_relative_stress_difference_%s' % (name, cls), rel)):
+                if I['algo'] != 2 or 'stress' not in key:
+                    stats[key] = max(stats.get(key, 0.0), v) if v == v else float('nan')
+            if not plain:
+                continue
+            stats['d_%s_judged' % name] += 1
+            bad = (not dv <= D_MAJ_TOL) if I['algo'] == 2 else (not rel <= D_FD_STRESS_TOL)
+            if bad and reported < 3:
+                reported += 1
+                how = ('translating every start position by the exactly representable offset (%s, %s)' % (tx, ty)) if idx == 11 else \
+                    ('renumbering the nodes (new index of node i = %s[i]) and reordering the edge list' % perm)
+                res.violation({'what': 'libcola layout: %s changes the result beyond the tolerance measured on the unchanged tree (%s)'
+                                       % (how, 'majorization: positions 1e-8' if I['algo'] == 2 else 'force-directed: stress of the result, relative 1e-2'),
+                               'input': layout_json(I), 'positions': r[0][0], 'positions_other_frame_mapped_back': got, 'max_position_deviation': dv,
+                               'stress': r[0][1], 'stress_other_frame': t[1], 'replay': 'printf "%s\\n%s\\n" | %s' % (c[0], c[idx], rp)})
+    # every layout alone, one fresh process per heap fill mode (identical allocation sequence, different prior contents of every block)
+    singles = [cmds[m[7]] for m in meta]
+    fseed = 1 + rng.next() % 10 ** 9
+    fouts, dt2 = fill_invariance(exe, singles, fseed, timeout=1500)
+    dt += dt2
+    if any(x is None or len(x) != len(singles) for x in fouts):
+        res.violation({'what': 'harness c20_layout crashed in the fill-invariance run'})
+    else:
+        for k, sc in enumerate(singles):
+            stats['d_fill_invariance_layouts'] += 1
+            w = next((i for i in range(1, len(fouts)) if fouts[i][k] != fouts[0][k]), None)
+            if w is not None:
+                stats['d_fill_dependent'] += 1
+                if reported < 5:
+                    reported += 1
+                    fb = FILLS[w] % fseed if '%d' in FILLS[w] else FILLS[w]
+                    res.violation({'what': 'libcola layout: the result depends on what the heap blocks handed out by operator new held before the library wrote to '
+                                           'them (fresh processes, identical calls and allocation sequence, every fresh block zeroed against pre-filled: %s)' % fb,
+                                   'input': layout_json(meta[k][0]), 'zero_filled': fouts[0][k], 'pre_filled': fouts[w][k],
+                                   'replay': 'printf "%s\\n%s\\n" | %s ; printf "%s\\n%s\\n" | %s' % (FILLS[0], sc, rp, fb, sc, rp)})
+    return dt
+
+
+# ------------------------------------------------------------------------------------------ (e) IncSolver / removeoverlaps: same type in between, heap fill
+def part_e(res, rng, exe, n_inst, stats):
+    """every other object type the replay harness constructs: vpsc::IncSolver (with its Variables / Constraints) and the Rectangle sets of
+    removeoverlaps - the same call repeated in one process after an object of the SAME type with extreme settings (weights 1e-6 .. 1e6, gaps
+    1e4, many equalities; rectangles with huge borders set and restored) was built, used and destroyed, and with every fresh heap block
+    pre-filled (F); then each call alone in one fresh process per fill mode.  Bit-identical results required."""
+    cmds, meta, singles = [], [], []
+    for k in range(n_inst):
+        if k % 3 < 2:
+            des, ws, cs, cyc = vpsc_instance(rng)
+            base = cmd_V(des, ws, cs)
+            n2 = rng.range(3, 9)
+            xdes = [F(rng.range(-20, 20) * 10 ** rng.choice([0, 3, 5])) for _ in range(n2)]
+            xws = [F(rng.choice([1, 10 ** 6, F(1, 2 ** 20), 4096])) for _ in range(n2)]
+            xcs = [(i, i + 1, F(rng.choice([0, 1, 10 ** 4, 12345.5])), 1 if rng.chance(1, 2) else 0) for i in range(n2 - 1)]
+            extreme = cmd_V(xdes, xws, xcs)
+            inp = {'call': 'vpsc::IncSolver(vs, cs).solve()', 'desired': [str(d) for d in des], 'weights': [str(w) for w in ws],
+                   'constraints_l_r_gap_eq': [[l, r, str(g), e] for l, r, g, e in cs]}
+        else:
+            a, b = L.gen_instance(rng), L.gen_instance(rng)
+            base = cmd_R2(a, [rng.below(a.n())] if rng.chance(1, 4) else [], rng.chance(3, 4))
+            extreme = cmd_R2(b, [], True, 1, 1000 * b.scale, 4096 * b.scale)
+            inp = {'call': 'vpsc::removeoverlaps', 'input': a.to_json()}
+        block = [base, extreme, base, 'F 6 %d' % (1 + rng.next() % 10 ** 9), base, 'F %d' % rng.choice([2, 3, 4, 5]), base, 'F 0']
+        meta.append((inp, len(cmds), len(block)))
+        singles.append(base)
+        cmds += block
+    rc, out, err, dt = L.run_lines([exe], cmds, timeout=900)
+    if rc != 0 or len(out) != len(cmds):
+        res.violation({'what': 'harness c20_replay crashed in the IncSolver / removeoverlaps fill run', 'rc': rc, 'stderr': err[-1500:],
+                       'command': cmds[len(out)] if len(out) < len(cmds) else None})
+        return dt
+    rp = 'build/bin/c20_replay-exc-*'
+    HOW = ['', 'an object of the same type with extreme settings was built, used and destroyed', 'every fresh heap block pre-filled with plausible doubles (F 6)',
+           'every fresh heap block pre-filled with a byte pattern']
+    reported = 0
+    for inp, pos, blen in meta:
+        o, c = out[pos:pos + blen], cmds[pos:pos + blen]
+        stats['e_calls'] += 1
+        runs = [o[i] for i in (0, 2, 4, 6)]
+        w = next((i for i in range(1, 4) if runs[i] != runs[0]), None)
+        if w is None:
+            stats['e_identical'] += 1
+        elif reported < 3:
+            reported += 1
+            res.violation({'what': '%s: the same call on equal input repeated in one process gives a different result after: %s' % (inp['call'], HOW[w]),
+                           'input': inp, 'first': runs[0], 'again': runs[w], 'replay': 'printf "%s\\n" | %s' % ('\\n'.join(c[:2 * w + 1]), rp)})
+    fseed = 1 + rng.next() % 10 ** 9
+    fouts, dt2 = fill_invariance(exe, singles, fseed)
+    if any(x is None or len(x) != len(singles) for x in fouts):
+        res.violation({'what': 'harness c20_replay crashed in the fill-invariance run of the IncSolver / removeoverlaps calls'})
+    else:
+        for k, sc in enumerate(singles):
+            stats['e_fill_invariance_calls'] += 1
+            w = next((i for i in range(1, len(fouts)) if fouts[i][k] != fouts[0][k]), None)
+            if w is not None and reported < 6:
+                reported += 1
+                fb = FILLS[w] % fseed if '%d' in FILLS[w] else FILLS[w]
+                res.violation({'what': '%s: the result depends on what the heap blocks handed out by operator new held before the library wrote to them '
+                                       '(fresh processes, identical calls and allocation sequence, every fresh block zeroed against pre-filled: %s)' % (meta[k][0]['call'], fb),
+                               'input': meta[k][0], 'zero_filled': fouts[0][k], 'pre_filled': fouts[w][k],
+                               'replay': 'printf "%s\\n%s\\n" | %s ; printf "%s\\n%s\\n" | %s' % (FILLS[0], sc, rp, fb, sc, rp)})
+    return dt + dt2
+
+
 def part_p(res, rng, exe, drv, n, stats):
     """PseudoRandom: compiled cola::PseudoRandom against the extracted LCG model, exactly (float(model value) == implementation value)"""
     cmds = ['P %d %d' % (s, 40) for s in [0, 1, 2, 3, 2 ** 31 - 1, 2 ** 31, 2 ** 32 - 1] + [rng.below(2 ** 32) for _ in range(n)]]
@@ -1112,22 +1642,31 @@ def run(tier):
     c2stats = collections.defaultdict(int)
     tc2 = part_c2(res, rng.fork(), exe_x, 4000 if thorough else 900, c2stats, hist)
     ta2 = part_a2(res, rng.fork(), exe_x, 1200 if thorough else 300, c2stats)
+    tc3 = part_c3(res, rng.fork(), exe_x, 3000 if thorough else 600, c2stats)
+    te = part_e(res, rng.fork(), exe_x, 4500 if thorough else 900, c2stats)
+    exe_l = C.build_harness('c20_layout', ['libvpsc', 'libcola'], 'exc')
+    td = part_d(res, rng.fork(), exe_l, 1500 if thorough else 400, c2stats)
     stats.update(c2stats)
     corr_fail = part_p(res, rng.fork(), exe, drv, 400 if thorough else 60, stats)
     hist['features'] = dict(hist['features'])
     top = sorted(hist['parameter_combinations_positive'].items(), key=lambda kv: -kv[1])
     hist['parameter_combinations_positive'] = {'distinct': len(top), 'most_frequent': dict(top[:25])}
-    nruns = stats['a_runs'] + 5 * stats['b_instances'] + 12 * stats['c_scenes'] + 14 * stats['c2_scenes'] + 2 * stats['a2_pairs'] + stats['a2_interleaved_calls']
+    nruns = stats['a_runs'] + 5 * stats['b_instances'] + 12 * stats['c_scenes'] + 14 * stats['c2_scenes'] + 2 * stats['a2_pairs'] + stats['a2_interleaved_calls'] \
+        + 10 * stats['c3_scenes'] + 8 * stats['e_calls'] + 11 * stats['d_layouts']
     res.cov.update({'evaluations': nruns,
-                    'distinct_nontrivial': stats['a_groups'] + stats['b_translate_ok'] + stats['c_cost_comparisons'] + stats['c2_cost_comparisons'] + stats['a2_pairs'],
+                    'distinct_nontrivial': stats['a_groups'] + stats['b_translate_ok'] + stats['c_cost_comparisons'] + stats['c2_cost_comparisons'] + stats['a2_pairs']
+                    + stats['c3_scenes'] + stats['e_calls'] + stats['d_layouts'],
                     'rule': 'non-trivial = groups of identical scan-line / removeoverlaps calls on rectangle sets with equal centres run under 5 allocator '
                             'primings + VPSC instances whose translated run was compared + route-cost comparisons under symmetries / permutations '
-                            '(default and sampled non-default routing configurations) + removeoverlaps calls repeated after unrelated calls of the same API',
+                            '(default and sampled non-default routing configurations) + removeoverlaps calls repeated after unrelated calls of the same API '
+                            '+ default-configuration routing scenes / IncSolver and removeoverlaps calls / libcola layouts repeated after a same-type object with '
+                            'extreme settings and under the heap fill modes',
                     'exhaustive': False, 'counts': stats, 'samples': SAMPLES[:8],
                     'routing_configuration_histogram': hist,
                     'traces_validated_against_impl': nruns,
                     'timings_s': {'scanline_replay': round(ta, 2), 'incsolver_replay': round(tb, 2), 'routing_replay': round(tc, 2),
-                                  'routing_replay_configured': round(tc2, 2), 'removeoverlaps_interleaved': round(ta2, 2)}})
+                                  'routing_replay_configured': round(tc2, 2), 'removeoverlaps_interleaved': round(ta2, 2),
+                                  'routing_default_configuration': round(tc3, 2), 'incsolver_removeoverlaps_fill': round(te, 2), 'libcola_layout_replay': round(td, 2)}})
     res.cov['correspondence_disagreements'] = corr_fail[:3]
     if not res.violations and (not info['ok'] or corr_fail):
         res.violation({'what': 'proof obligation no longer checks (or cpp2v could not translate a predicate); the replay search found no failing input',
@@ -1145,6 +1684,7 @@ def warm():
     L.build('exc')
     C.build_harness('c20_replay', ['libvpsc', 'libavoid'], 'plain', extra_srcs=[os.path.join(C.COLA, 'libcola', 'pseudorandom.cpp')])
     C.build_harness('c20_replay', ['libvpsc', 'libavoid'], 'exc', extra_srcs=[os.path.join(C.COLA, 'libcola', 'pseudorandom.cpp')])
+    C.build_harness('c20_layout', ['libvpsc', 'libcola'], 'exc')
 
 
 META = {
@@ -1164,7 +1704,8 @@ META = {
                 'feasibility translate) and over the executable IncSolver model (Vpsc/VpscTranslate.v, C20_vpsc_translate_model: solve() on the translated '
                 'instance ends the same way and in a state with identical blocks, active set, flags, multipliers and every position translated by t; also '
                 'for satisfy() and whole op histories). PARTIAL: that IncSolver::solve always reaches a certified optimum is decided per run by the '
-                'certificate (as in C02), not proved; route-cost invariance of the router is covered by replay runs only.',
+                'certificate (as in C02), not proved; route-cost invariance of the router is covered by replay runs only, and so is the reproducibility of '
+                'libavoid under its default configuration and of the libcola layouts (parts c3, d, e: replay runs under heap perturbation, no model).',
         'design_ref': 'DESIGN.md 5.20'},
     'level_note': 'Trusted: Coq kernel; cpp2v.py + clang JSON AST for Gen/Geometry.v; the hand-written models Rect/ScanlineModel.v, Rect/RectBase.v, '
                   'Cola/PseudoRandomModel.v (validated by exact correspondence on every run, not derived from the source); extraction (ExtrOcamlBasic) and '
@@ -1187,6 +1728,25 @@ META = {
                   'removeoverlaps is additionally repeated after unrelated calls of the same API (thirdPass false, borders set / restored by the caller) '
                   'without any reset in between (part a2). Residual of F-d, '
                   'exhibited on every run and registered as known finding scanline_addr_tiebreak_dup_ids: CmpNodePos still falls back to the address when two Variables share an id (legal input; callers in /repo use distinct ids). Dependence on '
-                  'uninitialised memory can only be observed, not proved absent.',
+                  'uninitialised memory can only be observed, not proved absent: it is observed by (c3, d, e) - the harnesses replace the global operator new so '
+                  'that every block the library allocates can be pre-filled (zero, 0xA5, 0xFF, pseudo-random bytes, the double 100.0, pseudo-random plausible doubles): '
+                  'a call is repeated in one process under different fills, after an object of the SAME type configured with extreme settings was used and '
+                  'destroyed (Router with every RoutingParameter large and every option on, IncSolver with weights 1e-6..1e6, removeoverlaps with huge borders, '
+                  'a layout with idealLength 4096 / overlap avoidance on coincident nodes) and after malloc / fill / free of blocks of sizeof(Router) +- 64, and '
+                  'every call is also run alone in one fresh process per fill mode (identical allocation sequence, hence identical address order: the only '
+                  'difference is what fresh heap blocks held before). libavoid scenes of (c3) use the DEFAULT configuration (no setRoutingParameter / '
+                  'setRoutingOption call; the configured runs of c2 set all nine parameters and would hide an uninitialised default), pin classes with 2-4 '
+                  'candidate pins of different directions and costs, 1-3 connectors, a cluster round a shape (orthogonal only: polyline cluster corners must '
+                  'be shape vertices, asserted). An in-process difference whose scene is fill-invariant in fresh processes depends on heap ADDRESSES only: '
+                  'known finding pin_edge_addr_tiebreak (CmpVisEdgeRotation orders dummy pin edges by address), classifier: orthogonal + a differing connector '
+                  'has an end on a pin class with >= 2 pins + fill-invariant. libcola layouts (d): repetition (fresh objects, equal inputs, other layouts WITH '
+                  'coincident nodes in between, which consume whatever generator separates coincident nodes) is judged at 1e-9 and measured bit-identical on '
+                  'HEAD; translated start (AlignmentConstraint positions translated with the frame) and permuted node / edge order are judged only where HEAD '
+                  'is measurably stable - no coincident start positions, no compound constraints, no overlap avoidance: majorization positions to 1e-8 '
+                  '(measured <= 1.9e-11 over 2200 layouts), force-directed descent by the stress of the result, relative 1e-2 (measured <= 8.9e-5 translated / '
+                  '2.3e-4 permuted over 9500 layouts; end positions themselves differ by up to 0.27 translated, 25 permuted (mirror-image minima), because the '
+                  'descent stops on a relative stress change of 1e-4); with compound constraints or overlap avoidance HEAD itself jumps between active sets '
+                  '(position deviations up to 478, stress up to 4% translated and 100% permuted - infeasible alignment/separation mixes are resolved in list '
+                  'order), those classes are measured and recorded in the evidence only.',
     'technique': 'Coq proof over hand-written + cpp2v-generated Gallina, correspondence, and in-process replay runs with allocator priming',
 }
